@@ -184,7 +184,8 @@ pub fn from_csv(args: CliArgs, file: impl BufRead) -> Result<()> {
             source_column,
             target_column
         );
-        return Ok(());
+        // No graph has been written: report it with the exit status
+        anyhow::bail!("No arcs read from stdin");
     }
 
     create_parent_dir(&args.dst)?;
